@@ -6,7 +6,9 @@
   structural on the *filter* (the document never has to shrink).
   Outside the fidelity zone F (answer `unmodelled`): `$expr` (until MongoModel.Expr is plugged
   in), `$regex` beyond literal patterns with optional `^`/`$` anchors, `$options`, compiled
-  regular-expression values, negative array indexes in paths, empty path components.
+  regular-expression values, negative array indexes in paths.  (Empty path components are field
+  names like any other since the repair "a filter looks the empty field name up like any other
+  field": `candsKey`.)
 -/
 import MongoModel.Bson
 import MongoModel.Expr
@@ -220,7 +222,8 @@ def candLoop (f : Option Val → R Bool) (neg : Bool) :
     else if m' && !neg then pure (some (true, h'))
     else candLoop f neg cs m' h'
 
-/-- the unknown-operator check inside the candidate loop -/
+/-- the unknown-operator check of an operator condition (made once per key, before the candidates
+    are looked at) -/
 def checkUnknownOps (keys : List String) : R Unit :=
   let unknown := keys.filter (fun k => !(operatorMapKeys.contains k) && k != "$not")
   if unknown.isEmpty then .ok ()
@@ -331,24 +334,27 @@ mutual
   def applyKey : Val → String → Val → R Bool
     | .doc fs, key, d => do
       let search := Val.doc fs
-      let cs ← candsKey key d
       let keys := dkeys fs
-      let neg := keys.contains "$ne" || keys.contains "$nin"
-      let pos := keys.isEmpty || keys.any (fun k => k != "$ne" && k != "$nin")
-      if pyEq search (.doc [("$exists", .bool false)]) && cs.isEmpty then pure true
+      -- the operators of the condition are checked first, whether or not the key leads to a value
+      -- (`_combine_regex_options` — outside F — and the unknown-operator detection)
+      if isOpsFilter search && (keys.contains "$options" && keys.contains "$regex") then unmodelled
       else do
-        let pre ← (if keys.contains "$all" then allPre fs (.list cs) else pure true)
-        if !pre then pure false
-        else if keys.contains "$all" && fs.length == 1 then pure true
+        let _ ← (if isOpsFilter search then checkUnknownOps keys else .ok ())
+        let cs ← candsKey key d
+        let neg := keys.contains "$ne" || keys.contains "$nin"
+        let pos := keys.isEmpty || keys.any (fun k => k != "$ne" && k != "$nin")
+        if pyEq search (.doc [("$exists", .bool false)]) && cs.isEmpty then pure true
         else do
-          let r ← (
-            if isOpsFilter search then
-              if keys.contains "$options" && keys.contains "$regex" then unmodelled
-              else candLoop (fun dv => do checkUnknownOps keys; opsAll fs key d dv) neg cs false false
-            else candLoop (fun dv => pure (plainMatch search dv)) neg cs false false)
-          match r with
-          | none => pure false
-          | some (m, h) => pure (!(!m && (h || pos)))
+          let pre ← (if keys.contains "$all" then allPre fs (.list cs) else pure true)
+          if !pre then pure false
+          else if keys.contains "$all" && fs.length == 1 then pure true
+          else do
+            let r ← (
+              if isOpsFilter search then candLoop (fun dv => opsAll fs key d dv) neg cs false false
+              else candLoop (fun dv => pure (plainMatch search dv)) neg cs false false)
+            match r with
+            | none => pure false
+            | some (m, h) => pure (!(!m && (h || pos)))
     | search, key, d => do
       let cs ← candsKey key d
       let r ← candLoop (fun dv => pure (plainMatch search dv)) false cs false false
